@@ -67,6 +67,20 @@ def rules(ctx, tier):
         else:
             r.ok("%s:%s" % (e.kind, site_construct(e.site)), e.site.body, e.describe())
     c09_like_write_before_rename(ctx, r, must)
+    # the temp file has a fixed name: a kill between its creation and the rename leaves it behind, so the next writer must
+    # be able to start over on top of it (create + truncate) - exclusive creation turns one crash into "every later
+    # snapshot fails"
+    for e in ctx.fx.of_kind("FS_OPEN"):
+        if not any(c.endswith("_TMP") for c in e.classes):
+            continue
+        m = e.mode or set()
+        if m == {"read"}:
+            continue
+        r.check("create_new" not in m and "create" in m and "truncate" in m, "temp-reopenable", e.site.body,
+                "the temp file is opened %s at %s: a leftover from a crash is overwritten" % (sorted(m), site_where(e.site)),
+                "the fixed-name temp file is opened %s at %s: a temp file left behind by a crash makes every later "
+                "snapshot / settings save fail (open after the crash never succeeds again once there is log to "
+                "checkpoint)" % (sorted(m), site_where(e.site)), site_where(e.site))
     r.need(3, "effects on INDEX/SETTINGS + rename protocol")
     out.append(r.finish())
 
@@ -161,31 +175,31 @@ def publish_body_contract(ctx, r, must):
     for e in ctx.fx.of_kind("FS_RENAME"):
         if not (e.classes2 and e.classes2 <= {"CAS_BLOB"}):
             continue
-        b = e.site.body
-        rf = must.rf(b)
-        oks = rf.ok_edges_of(e.site.bb)
-        errs = rf.err_edges_of(e.site.bb)
-        for bb, kind in rf.forwarded.items():
-            if kind != "ok":
-                continue
-            via_ok = bool(oks) and cfgutil.edges_dominate(b, oks, bb)
-            via_err = False
-            if not via_ok and errs and cfgutil.edges_dominate(b, oks + errs, bb):
-                # the error arm: must pass a comparison of the error kind
-                for sw in b.normal_blocks():
-                    c = cfgutil.eq_edges(b, sw)
-                    if c is None:
-                        continue
-                    sl = Slicer(ctx.world, b)
-                    la = sl.leaves_of_operand(c[0]) | sl.leaves_of_operand(c[1])
-                    if any(x[0] == "call" and x[1] == "std::io::Error::kind" for x in la) and \
-                            cfgutil.edge_dominates(b, (sw, c[2]), bb):
-                        via_err = True
-            r.check(via_ok or via_err, "publish-ok-exit", b,
-                    "an Ok return of %s lies behind %s" % (b.path, "the successful rename" if via_ok else
-                                                           "a rename that failed with a tested error kind (destination exists)"),
-                    "%s can return Ok without the rename having been attempted and inspected" % b.path,
-                    "%s:%d" % (b.file, b.blocks[bb]["span"]["line"]))
+        for (b, rsite) in ctx.result_views(e.site):
+            rf = ctx.rf(b)
+            oks = rf.ok_edges_of(rsite.bb)
+            errs = rf.err_edges_of(rsite.bb)
+            for bb, kind in rf.forwarded.items():
+                if kind != "ok":
+                    continue
+                via_ok = bool(oks) and cfgutil.edges_dominate(b, oks, bb)
+                via_err = False
+                if not via_ok and errs and cfgutil.edges_dominate(b, oks + errs, bb):
+                    # the error arm: must pass a comparison of the error kind
+                    for sw in b.normal_blocks():
+                        c = cfgutil.eq_edges(b, sw)
+                        if c is None:
+                            continue
+                        sl = Slicer(ctx.world, b)
+                        la = sl.leaves_of_operand(c[0]) | sl.leaves_of_operand(c[1])
+                        if any(x[0] == "call" and x[1] == "std::io::Error::kind" for x in la) and \
+                                cfgutil.edge_dominates(b, (sw, c[2]), bb):
+                            via_err = True
+                r.check(via_ok or via_err, "publish-ok-exit", b,
+                        "an Ok return of %s lies behind %s" % (b.path, "the successful rename" if via_ok else
+                                                               "a rename that failed with a tested error kind (destination exists)"),
+                        "%s can return Ok without the rename having been attempted and inspected" % b.path,
+                        "%s:%d" % (b.file, b.blocks[bb]["span"]["line"]))
 
 
 def c09_like_write_before_rename(ctx, r, must):
@@ -211,7 +225,12 @@ def guarded_by_not_exists(ctx, site):
     a helper that is handed the path - in the flat view of the function the closure / helper belongs to."""
     if _guarded_in(ctx, site.body, site):
         return True
-    roots = [ctx.scope_root(site.body)]
+    # every function on the way up to the scope root (a view from far above may not reach down to the open)
+    roots = []
+    for lim in range(1, 7):
+        rt = ctx.scope_root(site.body, limit=lim)
+        if rt not in roots:
+            roots.append(rt)
     if site.body.is_closure:
         # a closure handed to a generic helper: the view starts at the function that writes the closure
         from ..prov import _closure_sites
